@@ -27,6 +27,33 @@ func mkVal(u uint64) V  { return felt.FromUint64[V](u) }
 func mkAddr(u uint64) A { return felt.FromUint64[A](u) }
 
 // ---------------------------------------------------------------------------------------------------------
+// The application model. Two kinds of application are drawn per case:
+//
+//   - height-independent: Valid(v) is a fixed drawn predicate over values (the application of juno's unit tests);
+//   - chain: a value is a block. It records the height it was built for and the value it extends (its parent) and may
+//     have bad content. A validator's application accepts v iff v was built for the height the validator is deciding,
+//     extends the value that validator committed at the previous height (genesis for the first height of the run) and
+//     its content is not bad. The judgement therefore depends on the validator's decided prefix: the block decided at
+//     height h is NOT valid at height h+1, and a block built for h+1 is not valid at h.
+//
+// The property's validity clause ("every committed value was ... judged valid by the application") is evaluated with
+// the validator's height and decided prefix at the moment it prevotes / precommits / commits. Within one height the
+// judgement of a given validator about a given value never changes, so the lock / valid-value rules (which let a
+// validator prevote a value it validated earlier in the same height) cannot make the prevote-time oracle unsound.
+// ---------------------------------------------------------------------------------------------------------
+
+type vmeta struct {
+	h      types.Height // height the value was built for
+	parent V            // the value it extends
+	bad    bool         // content the application rejects whatever the height
+}
+
+var (
+	genesis = mkVal(1) // parent of the values of the first height of a run
+	junk    = mkVal(7) // a parent that is never decided (a block of a foreign fork)
+)
+
+// ---------------------------------------------------------------------------------------------------------
 // Thresholds, derived from the safety argument of the Tendermint paper (arXiv 1807.04938), not from the code.
 //
 // Let N be the total voting power and B any set of faulty validators; the hypothesis is 3*power(B) < N.
@@ -279,7 +306,12 @@ func (s *sim) header() string {
 		}
 	}
 	sort.Strings(inv)
-	fmt.Fprintf(&b, "  values the application judges invalid: %s\n", strings.Join(inv, " "))
+	if s.chain {
+		fmt.Fprintf(&b, "  application: chain (a value named x@hK^p was built for height K on parent p; a validator accepts it iff it is deciding "+
+			"height K, committed p at height K-1 (genesis for the first height) and the content is not bad); bad content: %s\n", strings.Join(inv, " "))
+	} else {
+		fmt.Fprintf(&b, "  application: height-independent predicate; values it judges invalid: %s\n", strings.Join(inv, " "))
+	}
 	return b.String()
 }
 
